@@ -3,7 +3,7 @@ import importlib
 import json
 import sys
 
-from . import core
+from . import core, cover
 
 
 def main():
@@ -11,6 +11,7 @@ def main():
     replay = sys.argv[6] if len(sys.argv) > 6 else None
     spec = json.loads(spec)
     ctx = core.Ctx(prop, tier, int(seed), shard=spec, replay=bool(replay))
+    cover.start()          # before athlib is imported: line coverage of the anchored functions (report only)
     core.import_athlib()
     mod = importlib.import_module('vf.props.%s' % prop.lower())
     if replay:
@@ -20,8 +21,10 @@ def main():
         mod.replay(ctx, [core.unjson(w['case']) for w in r['witnesses']])
     else:
         mod.run_shard(ctx, spec)
+    d = ctx.dump()
+    d['cover'] = cover.collected()
     with open(out, 'w') as f:
-        json.dump(ctx.dump(), f)
+        json.dump(d, f)
 
 
 if __name__ == '__main__':
